@@ -17,6 +17,7 @@
   If the code's decision changes, `decide` fails here.
 -/
 import LccModel.Model.Saving
+import LccModel.Model.RunStart
 import LccModel.Generated.C10Tables
 
 namespace LccModel.Generated.C10
@@ -41,5 +42,10 @@ theorem intervalTable_agrees : ∀ r ∈ intervalTable, decideInterval r.1.1 r.1
 /-- the command-line option wins over the environment variable, which wins over the built-in default; empty values count as
     absent; invalid expressions are rejected -/
 theorem saveOptionTable_agrees : ∀ r ∈ saveOptionTable, chosenStrategy r.1.1 r.1.2 = r.2 := by decide +kernel
+
+/-- `create_report_dir`: only a path where nothing exists yet (parent present) gives the run a directory — an existing directory
+    (empty or holding a previous run's report), a regular file, a missing parent give none; the option wins over the variable,
+    the empty string counts as absent, neither = the project's own (rotating) implementation -/
+theorem reportDirTable_agrees : ∀ r ∈ reportDirTable, RunStart.startOutcome r.1.1 r.1.2 = r.2 := by decide +kernel
 
 end LccModel.Generated.C10
